@@ -151,3 +151,24 @@ def shape_pairs(draw):
         return [m], [n, m]
     s = draw(st.sampled_from([([n], []), ([], [n]), ([n, m], []), ([n, m], [m]), ([1], [n])]))
     return list(s[0]), list(s[1])
+
+
+FAMS = list(um.FAMILIES)
+
+
+@st.composite
+def unit_pairs(draw, relation=None, families=None):
+    """-> (unit_a, unit_b, relation) with relation in same / compat / incompat."""
+    fams = families or FAMS
+    rel = relation or draw(st.sampled_from(["same", "compat", "compat", "incompat"]))
+    fa = draw(st.sampled_from(fams))
+    ua = draw(st.sampled_from(um.FAMILIES[fa]))
+    if rel == "same":
+        return ua, ua, rel
+    if rel == "compat":
+        others = [u for u in um.FAMILIES[fa] if u != ua]
+        if not others:
+            return ua, ua, "same"
+        return ua, draw(st.sampled_from(others)), rel
+    fb = draw(st.sampled_from([f for f in FAMS if f != fa]))
+    return ua, draw(st.sampled_from(um.FAMILIES[fb])), rel
